@@ -7,6 +7,7 @@ Values are printed exactly as `m:e` (value = m·2^e, m odd) in both modes.
 -/
 import SharkVerif.Model.Kernels
 import SharkVerif.Model.KernelDerivs
+import SharkVerif.Model.KernelGrad
 open SharkVerif.Kernels
 
 class DrvScalar (α : Type) extends Add α, Sub α, Mul α, Div α, Neg α, BEq α where
@@ -41,13 +42,22 @@ def renderRat (q : Rat) : String :=
 def ratOfDyadic (m e : Int) : Rat :=
   if e ≥ 0 then ((m * ((2 ^ e.toNat : Nat) : Int) : Int) : Rat) else (m : Rat) / ((2 ^ (-e).toNat : Nat) : Rat)
 
+/-- exact square root of a rational whose numerator and denominator are perfect squares (exact mode only reaches
+`sqrt` on such values: normalised kernels over points whose norms are powers of two); 0 otherwise -/
+def ratSqrt (q : Rat) : Rat :=
+  if q.num < 0 then 0 else
+  let n := q.num.toNat
+  let a := Nat.sqrt n
+  let b := Nat.sqrt q.den
+  if a * a == n && b * b == q.den then (a : Rat) / (b : Rat) else 0
+
 instance : DrvScalar Rat where
   zero := 0
   one := 1
   ofDyadic := ratOfDyadic
   render := renderRat
-  exp := fun x => if x == 0 then 1 else 0       -- exact mode never reaches exp/sqrt
-  sqrt := fun x => if x == 1 then 1 else 0
+  exp := fun x => if x == 0 then 1 else 0       -- exact mode reaches exp at 0 only
+  sqrt := ratSqrt
 
 /-! ### Float -/
 def renderFloat (x : Float) : String :=
@@ -169,25 +179,6 @@ def chunk (d : Nat) : Nat → List α → List (List α)
 def showRow (r : List α) : String := ",".intercalate (r.map DrvScalar.render)
 def showMat (m : List (List α)) : String := ";".intercalate (m.map showRow)
 
-/-- `weightedParameterDerivative` of the kernels whose derivative code is modelled (leaves, scaled leaves) -/
-def paramGrad (ex sq : α → α) : Kern α → Mat α → Mat α → Mat α → Option (List α)
-  | .wsum ws W ks, C, X1, X2 => some (wsumWeightGrad ex sq ws W ks C X1 X2)   -- sub-kernels not adaptive
-  | .linear, _, _, _ => some []
-  | .poly deg off, C, X1, X2 => some [polyParamDeriv deg off C X1 X2]
-  | .gauss g, C, X1, X2 => some [gaussParamDeriv ex g C X1 X2]
-  | .ard gs, C, X1, X2 => some (ardParamDeriv ex gs C X1 X2 (gs.map fun _ => 0))
-  | .scaled f k, C, X1, X2 => (paramGrad ex sq k C X1 X2).map (scaledGrad f)
-  | _, _, _, _ => none
-
-/-- `weightedInputDerivative` of the same kernels -/
-def inputGrad (ex : α → α) : Kern α → Mat α → Mat α → Mat α → Option (Mat α)
-  | .linear, C, X1, X2 => some (linearInputDeriv C X1 X2)
-  | .poly deg off, C, X1, X2 => some (polyInputDeriv deg off C X1 X2)
-  | .gauss g, C, X1, X2 => some (gaussInputDeriv ex g C X1 X2)
-  | .ard gs, C, X1, X2 => some (ardInputDeriv ex gs C X1 X2)
-  | .scaled f k, C, X1, X2 => (inputGrad ex k C X1 X2).map fun G => G.map (scaledGrad f)
-  | _, _, _, _ => none
-
 structure St (α : Type) where
   kern : Option (Kern α) := none
   table : Option (Mat α) := none     -- DiscreteKernel
@@ -195,11 +186,25 @@ structure St (α : Type) where
   ipts : List Nat := []
   sets : List (Mat α) := []          -- PointSetKernel inputs
   norm : Bool := false               -- IS_NORMALIZED as cached by the constructors (KObj.normFlag)
+  ad : Bool := false                 -- setAdaptiveAll(true) was called on every weighted sum
+  -- KernelExpansion: basis batches, alpha, offset, number of outputs
+  kexp : Option (List (Mat α) × Mat α × List α × Nat) := none
+  -- GaussianTaskKernel / MultiTaskKernel: tasks of the points, number of tasks, gamma, current table
+  tasks : List Nat := []
+  ntasks : Nat := 0
+  tgamma : Option α := none
+  ttable : Option (Mat α) := none
+  -- MklKernel over pairs (x[0,da), x[da,d)): the split position
+  mklSplit : Nat := 0
 
 def seg {β : Type} (xs : List β) (a b : Nat) : List β := (xs.drop a).take (b - a)
 
+/-- the fixed symmetric weight matrix of the `gderiv` / `gderivx` ops -/
+def gramW (i j : Nat) : α := DrvScalar.ofDyadic ((((i + 1) * (j + 1) * 7 + (i + j) * 3 + 1) % 5 : Nat) : Int) 0 - DrvScalar.ofDyadic 2 0
+
 def step (s : St α) (line : String) : St α × String :=
   let toks := (line.trimAscii.toString.splitOn " ").filter (· ≠ "")
+  let toks := if toks.head? == some "mk" then toks.drop 1 else toks     -- `mk <op>`: an op on the MklKernel object
   let ex := (DrvScalar.exp : α → α)
   let sq := (DrvScalar.sqrt : α → α)
   match toks with
@@ -211,15 +216,24 @@ def step (s : St α) (line : String) : St α × String :=
       match parseVals (α := α) (n * n) ts with
       | some (vs, []) => ({ s with table := some (chunk n n vs), kern := none }, s!"ok disc {n}")
       | _ => (s, "bad-op")
+  | "mkl" :: da :: p :: ts =>      -- MklKernel over pairs (x[0,da), x[da,d)) = direct sum of two kernels, log-weight p
+    match da.toNat?, parseVal (α := α) p, parseKern (α := α) ts with
+    | some da, some p, some (k1, rest) =>
+      match parseKern (α := α) rest with
+      | some (k2, []) =>
+        let k := subrangeKernel ex [p] [(0, da, k1), (da, 1000000, k2)]
+        ({ s with kern := some k, table := none, sets := [], norm := (KObj.construct k).normFlag, ad := false, kexp := none, ttable := none }, "ok")
+      | _ => (s, "bad-op")
+    | _, _, _ => (s, "bad-op")
   | "kern" :: ts =>
     match parseKern (α := α) ts with
-    | some (k, []) => ({ s with kern := some k, table := none, sets := [], norm := (KObj.construct k).normFlag }, "ok")
+    | some (k, []) => ({ s with kern := some k, table := none, sets := [], norm := (KObj.construct k).normFlag, ad := false, kexp := none, ttable := none }, "ok")
     | _ => (s, "bad-op")
   | "pts" :: n :: d :: ts =>
     match n.toNat?, d.toNat? with
     | some n, some d =>
       match parseVals (α := α) (n * d) ts with
-      | some (vs, []) => ({ s with pts := chunk d n vs }, s!"ok {n} {d}")
+      | some (vs, []) => ({ s with pts := chunk d n vs, kexp := none, ttable := none }, s!"ok {n} {d}")
       | _ => (s, "bad-op")
     | _, _ => (s, "bad-op")
   | "psets" :: ts =>
@@ -241,6 +255,24 @@ def step (s : St α) (line : String) : St α × String :=
       | "fdist", [.inl i, .inl j] =>
         (s, DrvScalar.render (pse (st i) (st i) - two * pse (st i) (st j) + pse (st j) (st j)))
       | "dcheck", _ => (s, "ok")
+      | "stale", _ => (s, "ok")
+      | "gderiv", _ => (s, "ok")
+      | "pderiv", .inl a :: .inl b :: .inl c :: .inl d :: cs =>
+        if !k.hasParamDeriv then (s, "unsupported") else
+        let C := chunk (d - c) (b - a) (cs.map valOf)
+        let g := pointSetParamGrad (fun C X1 X2 => k.paramGradA ex sq s.ad C X1 X2) C (seg s.sets a b) (seg s.sets c d)
+          (List.replicate (k.numParamsA s.ad) 0)
+        (s, "g=" ++ showRow g)
+      | "gderivx", sizes =>
+        match sizes.mapM natOf with
+        | none => (s, "bad-op")
+        | some sizes =>
+          if !k.hasParamDeriv then (s, "unsupported") else
+          let np := k.numParamsA s.ad
+          let bg := fun (C : Mat α) (B1 B2 : List (Mat α)) =>
+            pointSetParamGrad (fun C X1 X2 => k.paramGradA ex sq s.ad C X1 X2) C B1 B2 (List.replicate np 0)
+          let g := gramParamDeriv vadd (vscale two) (List.replicate np 0) bg gramW (splitSizes s.sets sizes)
+          (s, "g=" ++ showRow g)
       | "gram", reg :: sizes =>
         match sizes.mapM natOf with
         | none => (s, "bad-op")
@@ -272,32 +304,99 @@ def step (s : St α) (line : String) : St α × String :=
         | "fdistb", [.inl a, .inl b, .inl c, .inl d] =>
           (s, showMat ((KObj.mk k s.norm).featureDistanceBlock ex sq (seg s.pts a b) (seg s.pts c d)))
         | "dcheck", _ => (s, "ok")
+        | "stale", _ => (s, "ok")
         | "unitvar", _ => (s, "ok")
         | "gderiv", _ => (s, "ok")
-        | "flags", [] => (s, s!"norm={if s.norm then 1 else 0} np={k.numParams}")
+        | "flags", [] => (s, s!"norm={if s.norm then 1 else 0} np={k.numParamsA s.ad}")
+        | "adaptall", [] => ({ s with ad := true }, s!"ok np={k.numParamsA true}")
         -- in-place reconfiguration of the live object: the cached flag `s.norm` is NOT recomputed
         | "setfactor", [.inl i, f] =>
           if i < k.numScaled then
             ({ s with kern := some ((KObj.mk k s.norm).apply ex (.setFactor i (valOf f))).expr }, "ok")
           else (s, "bad-op")
         | "setparams", ps =>
-          if ps.length == k.numParams then
-            ({ s with kern := some ((KObj.mk k s.norm).apply ex (.setParams (ps.map valOf))).expr }, "ok")
+          if ps.length == k.numParamsA s.ad then
+            ({ s with kern := some (k.setParamsA ex s.ad (ps.map valOf)) }, "ok")
           else (s, "bad-op")
         | "pderiv", .inl a :: .inl b :: .inl c :: .inl d :: cs =>
           let C := chunk (d - c) (b - a) (cs.map valOf)
           let X1 := seg s.pts a b
           let X2 := seg s.pts c d
-          match paramGrad ex sq k C X1 X2 with
-          | some g => (s, "g=" ++ showRow g)
-          | none => (s, "unsupported")
+          if k.hasParamDeriv then (s, "g=" ++ showRow (k.paramGradA ex sq s.ad C X1 X2)) else (s, "unsupported")
         | "ideriv", .inl a :: .inl b :: .inl c :: .inl d :: cs =>
           let C := chunk (d - c) (b - a) (cs.map valOf)
           let X1 := seg s.pts a b
           let X2 := seg s.pts c d
-          match inputGrad ex k C X1 X2 with
-          | some G => (s, showMat G)
-          | none => (s, "unsupported")
+          if k.hasInputDeriv then (s, showMat (k.inputGradA ex sq s.ad C X1 X2)) else (s, "unsupported")
+        | "gderivx", sizes =>
+          match sizes.mapM natOf with
+          | none => (s, "bad-op")
+          | some sizes =>
+            if !k.hasParamDeriv then (s, "unsupported") else
+            let np := k.numParamsA s.ad
+            let g := gramParamDeriv vadd (vscale two) (List.replicate np 0)
+              (fun C B1 B2 => k.paramGradA ex sq s.ad C B1 B2) gramW (splitSizes s.pts sizes)
+            (s, "g=" ++ showRow g)
+        -- KernelExpansion: kexp nout off nb s1..snb alpha(n*nout) [b(nout)]
+        | "kexp", .inl nout :: .inl off :: .inl nb :: rest =>
+          match (rest.take nb).mapM natOf with
+          | none => (s, "bad-op")
+          | some sizes =>
+            let n := sizes.foldl (· + ·) 0
+            let vals := (rest.drop nb).map valOf
+            if vals.length != n * nout + (if off == 1 then nout else 0) || n > s.pts.length then (s, "bad-op") else
+            let alpha := chunk nout n vals
+            let b := if off == 1 then vals.drop (n * nout) else []
+            ({ s with kexp := some (splitSizes s.pts sizes, alpha, b, nout) }, s!"ok {n} {nout}")
+        | "kx", [.inl a, .inl b] =>
+          match s.kexp with
+          | none => (s, "bad-op")
+          | some (basis, alpha, off, nout) => (s, showMat (kexpEval (k.evalBlock ex sq) basis alpha off nout (seg s.pts a b)))
+        -- evalSkipMissingFeatures: skip i j maskA maskB maskMissingness (bit t set = feature t is NaN)
+        | "skip", [.inl i, .inl j, .inl ma, .inl mb, .inl mm] =>
+          if !k.variableInputSize then (s, "unsupported") else
+          let a := pt i
+          let b := pt j
+          let keep3 := (List.range a.length).map fun t => !(ma.testBit t) && !(mb.testBit t)
+          let keep4 := (List.range a.length).map fun t => !(ma.testBit t) && !(mb.testBit t) && !(mm.testBit t)
+          (s, DrvScalar.render (evalSkip3 (k.eval ex sq) keep3 a b) ++ " " ++ DrvScalar.render (evalSkip4 (k.eval ex sq) keep4 a b))
+        -- GaussianTaskKernel over the current points: task T gamma t1..tn ; ttable ; tsetparams p.. gamma ; tsetgamma g
+        | "task", .inl T :: g :: ts =>
+          match ts.mapM natOf with
+          | none => (s, "bad-op")
+          | some ts =>
+            if ts.length != s.pts.length then (s, "bad-op") else
+            let tab := taskTable (k.eval ex sq) ex T (valOf g) (s.pts.zip ts)
+            ({ s with tasks := ts, ntasks := T, tgamma := some (valOf g), ttable := some tab }, showMat tab)
+        | "tbatch", _ => (s, match s.ttable with | some t => showMat t | none => "bad-op")
+        | "tsetparams", ps =>
+          if ps.length != k.numParamsA s.ad + 1 || s.ttable.isNone then (s, "bad-op") else
+          let vs := ps.map valOf
+          let k' := k.setParamsA ex s.ad (vs.take (k.numParamsA s.ad))
+          let g := vs.getLastD DrvScalar.zero
+          let tab := taskTable (k'.eval ex sq) ex s.ntasks g (s.pts.zip s.tasks)
+          ({ s with kern := some k', tgamma := some g, ttable := some tab }, showMat tab)
+        | "tsetgamma", [g] =>
+          if s.ttable.isNone then (s, "bad-op") else
+          let tab := taskTable (k.eval ex sq) ex s.ntasks (valOf g) (s.pts.zip s.tasks)
+          ({ s with tgamma := some (valOf g), ttable := some tab }, showMat tab)
+        | "mt", .inl 0 :: [.inl i, .inl j] =>      -- mt 0 i j : single evaluation
+          match s.ttable with
+          | none => (s, "bad-op")
+          | some tab => (s, DrvScalar.render (multiTaskEval (k.eval ex sq) tab (pt i, s.tasks.getD i 0) (pt j, s.tasks.getD j 0)))
+        | "mt", .inl 1 :: [.inl a, .inl b, .inl c, .inl d] =>   -- mt 1 a b c d : block
+          match s.ttable with
+          | none => (s, "bad-op")
+          | some tab =>
+            let data := s.pts.zip s.tasks
+            (s, showMat (multiTaskBlock (k.evalBlock ex sq) tab (seg data a b) (seg data c d)))
+        | "mt", .inl 2 :: reg :: sizes =>           -- mt 2 reg sizes : Gram matrix
+          match s.ttable, sizes.mapM natOf with
+          | some tab, some sizes =>
+            let n := sizes.foldl (· + ·) 0
+            let M := regularizedGram (multiTaskBlock (k.evalBlock ex sq) tab) (valOf reg) (splitSizes (s.pts.zip s.tasks) sizes)
+            (s, showMat (M.toRows n n))
+          | _, _ => (s, "bad-op")
         | "gram", reg :: sizes =>
           match sizes.mapM natOf with
           | none => (s, "bad-op")
